@@ -126,3 +126,110 @@ Proof.
   intros He Hc. cbn [fba_run concat]. unfold fba_filter. rewrite He, Hc. rewrite fba_run_in_error by reflexivity. reflexivity.
 Qed.
 End FbaError.
+
+(* ---- insert-only text filters, for EVERY chunking (empty chunks, only empty chunks, no chunk at all) ---- *)
+Section InsertOnlyAll.
+Variable lower : str -> str.
+Variable sel : str -> str -> bool.
+Notation tf := (stage_tf lower sel).
+Notation te := stage_te.
+
+(* insert-only stages in any state they can reach: a prepend that has fired or not, an append that has not ended *)
+Definition ins_stage (st : stage) : Prop :=
+  match st with
+  | StText t => (ts_action t = TPrepend) \/ (ts_action t = TAppend /\ ts_executed t = false)
+  | StHtml _ => False
+  end.
+(* what is still to be prepended *)
+Fixpoint pre_left (ch : list stage) : str :=
+  match ch with
+  | [] => []
+  | StText t :: rest => pre_left rest ++ (match ts_action t, ts_executed t with TPrepend, false => ts_content t | _, _ => [] end)
+  | _ :: rest => pre_left rest
+  end.
+Definition fire (st : stage) : stage :=
+  match st with
+  | StText t => match ts_action t with TPrepend => StText {| ts_action := TPrepend; ts_content := ts_content t; ts_executed := true |} | _ => st end
+  | _ => st
+  end.
+
+Lemma ins_fire st : ins_stage st -> ins_stage (fire st).
+Proof.
+  destruct st as [t|F]; [|intros []]. destruct t as [a c e]. cbn [ins_stage ts_action ts_executed]. intros [H|[H1 H2]]; subst.
+  - cbn. left. reflexivity.
+  - cbn. right. split; reflexivity.
+Qed.
+Lemma pre_left_fire ch : Forall ins_stage ch -> pre_left (map fire ch) = [].
+Proof.
+  induction ch as [|st ch IH]; intros H; [reflexivity|]. inversion H as [|? ? Hs Hr]; subst. destruct st as [t|F]; [|destruct Hs].
+  destruct t as [a c e]. cbn in Hs. cbn [map fire ts_action]. destruct Hs as [Ha|[Ha He]]; cbn in Ha; subst a; cbn [pre_left ts_action ts_executed ts_content]; rewrite (IH Hr); reflexivity.
+Qed.
+Lemma app_of_fire ch : app_of (map fire ch) = app_of ch.
+Proof. induction ch as [|st ch IH]; [reflexivity|]. destruct st as [t|F]; cbn [map fire]; [|exact IH]. destruct t as [a c e]. destruct a; cbn [app_of ts_action ts_content fire]; rewrite IH; reflexivity. Qed.
+
+(* non-empty data flows through the whole chain: every pending prepend fires *)
+Lemma cf_nonempty ch : Forall ins_stage ch -> forall d, is_nil d = false ->
+  cf stage tf ch d = (map fire ch, pre_left ch ++ d).
+Proof.
+  induction ch as [|st ch IH]; intros H d Hd; [reflexivity|]. inversion H as [|? ? Hs Hr]; subst. destruct st as [t|F]; [|destruct Hs].
+  destruct t as [a c e]. cbn in Hs. cbn [cf stage_tf]. unfold text_filter. cbn [ts_action ts_executed ts_content].
+  destruct Hs as [Ha|[Ha He]]; cbn in Ha; subst a.
+  - destruct e; cbn [map fire pre_left ts_action ts_executed ts_content].
+    + rewrite Hd. rewrite (IH Hr d Hd). rewrite app_nil_r. reflexivity.
+    + assert (Hn : is_nil (c ++ d) = false) by (destruct c; [exact Hd|reflexivity]). rewrite Hn. rewrite (IH Hr _ Hn). rewrite app_assoc. reflexivity.
+  - cbn in He. subst e. cbn [map fire pre_left ts_action ts_executed ts_content]. rewrite Hd. rewrite (IH Hr d Hd). rewrite app_nil_r. reflexivity.
+Qed.
+
+(* ending: whatever is still to be prepended, the pending data, the appends *)
+Lemma ce_ins ch : Forall ins_stage ch -> forall data, wf_data data ->
+  ce stage tf te ch data = pre_left ch ++ get_data data ++ app_of ch.
+Proof.
+  induction ch as [|st rest IH]; intros Hf data Hw.
+  - cbn. rewrite app_nil_r. destruct data; reflexivity.
+  - inversion Hf as [|? ? Hs Hr]; subst. destruct st as [t|F]; [|destruct Hs]. destruct t as [a c e]. cbn in Hs.
+    destruct Hs as [Ha|[Ha He]]; cbn in Ha; subst a.
+    + destruct e; destruct data as [d|]; cbn [ce pre_left app_of stage_tf stage_te]; unfold text_filter, text_end; cbn [ts_action ts_executed ts_content snd get_data];
+        rewrite (IH Hr) by apply wf_some_ne; rewrite get_some_ne; rewrite ?app_nil_r, <- ?app_assoc; cbn [app]; reflexivity.
+    + cbn in He. subst e. destruct data as [d|]; cbn [ce pre_left app_of stage_tf stage_te]; unfold text_filter, text_end; cbn [ts_action ts_executed ts_content snd get_data];
+        rewrite (IH Hr) by apply wf_some_ne; rewrite get_some_ne; rewrite ?app_nil_r, <- ?app_assoc; cbn [app]; reflexivity.
+Qed.
+
+(* an empty chunk: stops at the first stage that emits nothing; what it moved is accounted for *)
+Lemma cf_empty ch : Forall ins_stage ch ->
+  Forall ins_stage (fst (cf stage tf ch [])) /\ app_of (fst (cf stage tf ch [])) = app_of ch
+  /\ snd (cf stage tf ch []) ++ pre_left (fst (cf stage tf ch [])) = pre_left ch.
+Proof.
+  induction ch as [|st ch IH]; intros H; [cbn; auto|]. inversion H as [|? ? Hs Hr]; subst. destruct st as [t|F]; [|destruct Hs].
+  destruct t as [a c e]. cbn in Hs. cbn [cf stage_tf]. unfold text_filter. cbn [ts_action ts_executed ts_content].
+  destruct Hs as [Ha|[Ha He]]; cbn in Ha; subst a.
+  - destruct e.
+    + cbn [is_nil fst snd pre_left app_of ts_action ts_executed ts_content]. split; [constructor; [left; reflexivity|exact Hr]|]. split; [reflexivity|reflexivity].
+    + rewrite app_nil_r. destruct (is_nil c) eqn:Ec.
+      * destruct c; [|discriminate]. cbn [fst snd pre_left app_of ts_action ts_executed ts_content]. split; [constructor; [left; reflexivity|exact Hr]|]. rewrite !app_nil_r. auto.
+      * rewrite (cf_nonempty ch Hr c Ec). cbn [fst snd pre_left app_of ts_action ts_executed ts_content].
+        split; [constructor; [left; reflexivity|apply Forall_forall; intros x Hx; apply in_map_iff in Hx; destruct Hx as (y & <- & Hy); apply ins_fire; rewrite Forall_forall in Hr; auto]|].
+        rewrite app_of_fire, pre_left_fire by exact Hr. rewrite !app_nil_r. auto.
+  - cbn in He. subst e. cbn [is_nil fst snd pre_left app_of ts_action ts_executed ts_content]. split; [constructor; [right; auto|exact Hr]|]. rewrite app_nil_r. auto.
+Qed.
+
+Theorem insert_only_run_all ch chunks : Forall ins_stage ch ->
+  run stage tf te ch chunks = pre_left ch ++ concat chunks ++ app_of ch.
+Proof.
+  revert ch. induction chunks as [|c cs IH]; intros ch Hf.
+  - rewrite run_nil. rewrite (ce_ins ch Hf None I). reflexivity.
+  - rewrite run_cons. destruct (is_nil c) eqn:Ec.
+    + destruct c; [|discriminate]. destruct (cf_empty ch Hf) as (H1 & H2 & H3). rewrite (IH _ H1), H2. cbn [concat app].
+      rewrite app_assoc, H3. reflexivity.
+    + rewrite (cf_nonempty ch Hf c Ec). cbn [fst snd].
+      assert (Hf' : Forall ins_stage (map fire ch)) by (apply Forall_forall; intros x Hx; apply in_map_iff in Hx; destruct Hx as (y & <- & Hy); apply ins_fire; rewrite Forall_forall in Hf; auto).
+      rewrite (IH _ Hf'), pre_left_fire, app_of_fire by exact Hf. cbn [concat app]. rewrite <- !app_assoc. reflexivity.
+Qed.
+
+Lemma fresh_is_ins st : fresh_insert st -> ins_stage st.
+Proof. destruct st as [t|F]; [|intros []]. destruct t as [a c e]. cbn. intros [He Ha]. destruct a; [right; auto|left; reflexivity|congruence]. Qed.
+Lemma pre_left_fresh ch : Forall fresh_insert ch -> pre_left ch = pre_of ch.
+Proof.
+  induction ch as [|st ch IH]; intros H; [reflexivity|]. inversion H as [|? ? Hs Hr]; subst. destruct st as [t|F]; [|destruct Hs].
+  destruct t as [a c e]. destruct Hs as [He Ha]. cbn in He. subst e. cbn [pre_left pre_of ts_action ts_executed ts_content]. rewrite (IH Hr). destruct a; reflexivity.
+Qed.
+End InsertOnlyAll.
